@@ -213,6 +213,91 @@ func c13OverlapOracle(e *Env, s *vsched.Sched) []Finding {
 	return out
 }
 
+// returnedCloseOracle is the statement itself, on stamps: once a Close (of a scope, an ancestor
+// or the provider) has RETURNED, every operation that STARTS afterwards on that scope or a
+// descendant fails with the disposed error - whichever thread issued either of them.
+func returnedCloseOracle(e *Env) []Finding {
+	var out []Finding
+	for _, c := range e.Results {
+		if c.Op.Kind != "close" || c.Skipped || c.Panic != nil {
+			continue
+		}
+		for _, r := range e.Results {
+			if r.Skipped || r.Panic != nil || r.Start <= c.End {
+				continue
+			}
+			if r.Op.Kind != "get" && r.Op.Kind != "group" && r.Op.Kind != "scope" {
+				continue
+			}
+			under := c.Op.Scope == "" || r.Op.Scope == c.Op.Scope
+			if !under && !overlapped(e, c) {
+				// descendants: "closing a scope closes all its descendants" speaks of the Close that does the
+				// closing; a Close call that lost against another one still in progress returns early
+				for _, a := range e.ancestors(r.Op.Scope) {
+					if a == c.Op.Scope && a != "" {
+						under = true
+					}
+				}
+			}
+			if !under {
+				continue
+			}
+			if r.Err == nil {
+				out = append(out, Finding{feat("clause", "use-after-returned-close", "op", r.Op.Kind, "closed", tgtKind(c.Op), "target", tgtKind(r.Op)),
+					fmt.Sprintf("%s (thread %d) had returned, yet the later %s (thread %d) succeeded (%s)", c.Op, c.Thread, r.Op, r.Thread, r.Label)})
+			} else if !strings.Contains(r.Class, "disposed") {
+				out = append(out, Finding{feat("clause", "wrong-error-after-close", "op", r.Op.Kind, "class", r.Class),
+					fmt.Sprintf("%s had returned; the later %s returned %q, want a disposed error", c.Op, r.Op, r.Err)})
+			}
+		}
+	}
+	return out
+}
+
+// overlapped reports whether another Close / cancel of the same scope, an ancestor or the provider
+// was in progress at some time during c.
+func overlapped(e *Env, c *Res) bool {
+	chain := map[string]bool{"": true}
+	for _, a := range e.ancestors(c.Op.Scope) {
+		chain[a] = true
+	}
+	for _, o := range e.Results {
+		if o == c || o.Skipped || (o.Op.Kind != "close" && o.Op.Kind != "cancel") || !chain[o.Op.Scope] {
+			continue
+		}
+		if o.Op.Kind == "cancel" {
+			if o.Start < c.End {
+				return true // the watcher's Close may be running at any time after the cancel
+			}
+			continue
+		}
+		if o.Start < c.End && c.Start < o.End {
+			return true
+		}
+	}
+	return false
+}
+
+// c13CascadeScenarios: two closers whose cascades overlap (a user Close method yields inside the
+// first cascade), then use of the scopes the first cascade has not reached yet.
+func c13CascadeScenarios() []*Scenario {
+	setup := []Op{{Kind: "scope", Bind: "s0"}, {Kind: "scope", Scope: "s0", Bind: "a", Ctx: ""}, {Kind: "scope", Scope: "s0", Bind: "b", Ctx: ""},
+		{Kind: "get", Scope: "a", T: "D1"}, {Kind: "get", Scope: "b", T: "D1"}}
+	after := func(sc string) []Op {
+		return []Op{{Kind: "get", Scope: "a", T: "D1"}, {Kind: "get", Scope: "b", T: "D1"}, {Kind: "scope", Scope: "b", Bind: "n" + sc}, {Kind: "get", Scope: "s0", T: "D1"}}
+	}
+	final := []Op{{Kind: "settle"}, {Kind: "close", Scope: ""}, {Kind: "settle"}}
+	mk := func(name string, t1, t2 []Op) *Scenario {
+		return &Scenario{Name: "close-cascades/" + name, Spec: mixSpec(false), Setup: setup, Threads: [][]Op{t1, t2}, Final: final}
+	}
+	return []*Scenario{
+		mk("parent-vs-provider", []Op{{Kind: "close", Scope: "s0"}}, append([]Op{{Kind: "close", Scope: ""}}, after("1")...)),
+		mk("parent-vs-parent", []Op{{Kind: "close", Scope: "s0"}}, append([]Op{{Kind: "close", Scope: "s0"}}, after("2")...)),
+		mk("provider-vs-parent", []Op{{Kind: "close", Scope: ""}}, append([]Op{{Kind: "close", Scope: "s0"}}, after("3")...)),
+		mk("child-vs-provider", []Op{{Kind: "close", Scope: "a"}}, append([]Op{{Kind: "close", Scope: ""}}, after("4")...)),
+	}
+}
+
 func c13HistCfg(tier string) []*histCfg {
 	depth := 4
 	if tier == "thorough" {
@@ -228,7 +313,7 @@ func c13HistCfg(tier string) []*histCfg {
 func init() {
 	mc.Register(&mc.Check{
 		Prop:        "C13",
-		Rule:        "sequential: every history over {CreateScope(provider|scope, cancellable | inherited | cancellable-derived-from-the-parent-scope's-context ctx), Get, GetKeyed, GetGroup, Close(scope|provider), cancel} up to the depth bound, each operation compared with the closed-means-closed model; overlapping: every schedule (preemption bound 2 quick / 3 thorough) of one closer || one in-flight operation, then retries on every closed object. An outcome is the canonical observation string of one execution. Two providers built from one collection: every history to depth 4 (5) over {use p1, use p2, close p1, close p2}: a closed provider refuses use, the other one stays fully usable.",
+		Rule:        "sequential: every history over {CreateScope(provider|scope, cancellable | inherited | cancellable-derived-from-the-parent-scope's-context ctx), Get, GetKeyed, GetGroup, Close(scope|provider), cancel} up to the depth bound, each operation compared with the closed-means-closed model; overlapping: every schedule (preemption bound 2 quick / 3 thorough) of one closer || one in-flight operation, then retries on every closed object (also with the late instance's own Close failing); two overlapping cascades (Close(parent) || Close(provider), Close(parent) x2, Close(child) || Close(provider)) followed by use of every scope by the thread whose Close returned, judged on stamps: once a Close has returned, every operation starting later on that scope - and, for a provider Close or a scope Close that did not overlap another Close of its chain, on every descendant - fails with the disposed error. An outcome is the canonical observation string of one execution. Two providers built from one collection: every history to depth 4 (5) over {use p1, use p2, close p1, close p2}: a closed provider refuses use, the other one stays fully usable.",
 		Assume:      []string{"sequentially consistent interleavings at synchronisation granularity (justified by the race detector's silence)", "context cancellation is observed by the watcher goroutine as a scheduler-visible blocking operation"},
 		MinOutcomes: 10,
 		Jobs: func(tier string) []mc.Job {
@@ -252,6 +337,31 @@ func init() {
 			}
 			for _, c := range c13HistCfg(tier) {
 				jobs = append(jobs, c.jobs()...)
+			}
+			for _, sc := range c13CascadeScenarios() {
+				sc := sc
+				jobs = append(jobs, mc.Job{Name: sc.Name, Weight: 30, Run: func(r *mc.Report) {
+					exploreScenario(r, sc, mc.Bounds{Preempt: pb}, func(e *Env, s *vsched.Sched) []Finding { return returnedCloseOracle(e) })
+				}})
+			}
+			// a resolution overlapping Close whose late instance fails ITS Close: still the disposed error
+			for _, closer := range []string{"close-scope", "close-provider", "cancel"} {
+				for _, op := range []string{"get-scoped", "get-transient", "get-group"} {
+					sc := c13Scenario(closer, op, false)
+					sc.Name = strings.Replace(sc.Name, "close-vs-op/", "close-vs-op-closefail/", 1)
+					sc.CloseFail = []string{"r1#1.0", "r1#2.0", "r2#1.0", "r2#2.0", "r3#1.0", "r4#1.0"}
+					jobs = append(jobs, mc.Job{Name: sc.Name, Run: func(r *mc.Report) {
+						exploreScenario(r, sc, mc.Bounds{Preempt: pb}, func(e *Env, s *vsched.Sched) []Finding {
+							var keep []Finding
+							for _, f := range c13OverlapOracle(e, s) {
+								if f.F["clause"] != "close-returned-error" { // Close does report the failing instances here
+									keep = append(keep, f)
+								}
+							}
+							return keep
+						})
+					}})
+				}
 			}
 			jobs = append(jobs, twoProvJob("C13", depth4(tier)))
 			return jobs
